@@ -110,6 +110,9 @@ def run(ctx):
             copts["force_variant"] = "dir"           # a directory artifact with a linked directory inside, in every run
         elif i % 23 == 7:
             copts["force_variant"] = "clash"
+        elif i % 4 == 1:
+            copts["force_two_inspections"] = True
+            copts["simple_recording"] = True
         chain = ch.gen_chain(ctx.rng, copts)
         recs, project, linkdir = ch.record_chain(ctx, chain)
         if not all(r["file_exists"] and not r["exc"] for r in recs):
@@ -147,7 +150,10 @@ def run(ctx):
         layout_md = ch.sign_layout(layout, owner, dsse=ctx.rng.random() < 0.3)
         rows = [row for r in recs for row in r["sig_rows"]]
         params = {} if i % 3 == 0 else None      # an empty parameter set: substitution must be the identity
-        out, vreq = ch.verify_chain(ctx, layout_md, owner, project, linkdir, rows, params=params)
+        bps = linkdir if i % 4 == 1 else None       # a base path configured in the verifying process (an unrelated directory)
+        chain["_bps"] = bool(bps)
+        chain["_params_empty"] = params is not None
+        out, vreq = ch.verify_chain(ctx, layout_md, owner, project, linkdir, rows, params=params, base_path_setting=bps)
         vreqs.append(("verify", vreq)); expect.append(["accept", out]); meta.append((chain, family, None))
         # tampered re-runs of the same chain under the same (honest) layout
         for _ in range(2 if not ctx.thorough() else 3):
@@ -165,7 +171,8 @@ def run(ctx):
                 extra = tamper_link(ctx.rng, tlinkdir, chain, trecs, tam[1], tam[2])
                 final_record = None
             trows = [row for r in trecs for row in r["sig_rows"]] + extra
-            tout, treq = ch.verify_chain(ctx, layout_md, owner, tproject, tlinkdir, trows, params=params)
+            tout, treq = ch.verify_chain(ctx, layout_md, owner, tproject, tlinkdir, trows, params=params,
+                                         base_path_setting=tlinkdir if bps else None)
             label = tam[3] if tam[0] == "tree" else "link_" + tam[2]
             dist["kinds"][label] = dist["kinds"].get(label, 0) + 1
             holder = {"final_record": final_record}
@@ -200,7 +207,7 @@ def run(ctx):
             nontrivial.add(json.dumps(tam) + str(k))
         if problems and viol < 6:
             viol += 1
-            ctx.violation("; ".join(problems)[:500], {"chain": chain, "family": family, "tamper": tam, "impl": out, "model": a})
+            ctx.violation("; ".join(problems)[:500], {"chain": chain, "family": family, "tamper": tam, "impl": out, "model": a, "want": want})
     broken = ctx.broken_obligations()
     if broken and not viol:
         ctx.violation("broken obligation(s): " + "; ".join(nm for nm, _ in broken),
@@ -265,9 +272,17 @@ def replay(ctx, obj):
     elif tam:
         extra = tamper_link(ctx.rng, linkdir, chain, recs, tam[1], tam[2])
     rows = [row for x in recs for row in x["sig_rows"]] + extra
-    out, req = ch.verify_chain(ctx, layout_md, owner, project, linkdir, rows)
+    out, req = ch.verify_chain(ctx, layout_md, owner, project, linkdir, rows,
+                               params={} if chain.get("_params_empty") else None,
+                               base_path_setting=linkdir if chain.get("_bps") else None)
     a = core.Model().batch([("verify", req)])[0]
     print("tamper:", tam)
     print("impl :", out.get("exc", "accept"), out.get("msg", ""))
     print("model:", a.get("err", "accept") if isinstance(a, dict) else a)
+    got = "accept" if "ok" in out else "reject"
+    mgot = "accept" if isinstance(a, dict) and "ok" in a else "reject"
+    want = r.get("want") or ("accept" if not tam else None)
+    if (want and got != want) or got != mgot:
+        print("VIOLATION property=C04 replay=%s" % obj.get("rerun", "").split()[-1])
+        return 1
     return 0
